@@ -100,3 +100,26 @@ ENGINES[0]['serves_properties'].append('C17')
 LEVEL_TEXT['C17'] = 'Round-trip and platform-differential oracles over generated addresses, strings and buffer lengths; the boundary grid is enumerated completely, the rest sampled.'
 LEVEL_NOTE['C17'] = 'Trusted: glibc inet_pton/inet_ntop/getaddrinfo as the platform view; ASan for out-of-bounds accesses on exact-size heap buffers.'
 TECHNIQUE['C17'] = 'property-based testing (rapidcheck): round-trip + differential vs platform, exhaustive boundary grid, ASan'
+
+# ---- C11 ---------------------------------------------------------------------------------------
+harness('hash', 'engines/seq/hash.cpp', 'gcc-asan', libs='-lrapidcheck -lcrypto -lnettle')
+harness('hash_plain', 'engines/seq/hash.cpp', 'gcc-plain-c11', libs='-lrapidcheck -lcrypto -lnettle')
+reg(Prop('C11', 'exploration', [
+    Sub('rand', 'hash', shards=(10, 16), cases=(600, 20000), maxsize=(100, 300), env={'VERIF_SUB': 'rand'}),
+    Sub('grid', 'hash', shards=(3, 8), cases=(1, 1), env={'VERIF_SUB': 'grid'}),
+    Sub('large', 'hash_plain', shards=(3, 13), cases=(1, 1), env={'VERIF_SUB': 'large'}, timeout=(900, 3600)),
+], rule='per algorithm (11): total lengths and chunk boundaries generated relative to the block size b (totals 0,1,b-9,b-8,b-1,b,b+1,2b-9..3b+5, random<=20000; chunkings single, bytewise, '
+        '(buffered, chunk) grids, empty chunks interleaved, random), histories mixing update/get_string/get_digest(exact-size and too-small buffers)/reset/no-op updates; '
+        'grid sub-run: every buffered fill 0..b-1 x 7 chunk lengths x 5 tail lengths per algorithm (exhaustive for that grid); large sub-run: one single update of 2^32(+k) bytes '
+        '(64 MiB memfd tiled with MAP_FIXED) vs the reference fed the same bytes (quick: MD5, SHA-1, SHA-256; thorough: + SHA-224, SHA-512, SHA3-256, GOST and buffered prefixes). '
+        'Oracle: OpenSSL EVP / nettle gosthash94cp digest of the bytes accepted while open; lower-case hex of the right length; repeatable reads; updates after a read ignored until reset. '
+        'Non-trivial = an update crossing a block boundary with a non-empty buffer and a total within 9 bytes of a padding boundary, or an update after a read, or a large update; '
+        'distinct = distinct (algorithm, sequence of (buffer fill, chunk residue) pairs, total mod b) fingerprint, i.e. distinct boundary shapes rather than payloads.',
+    assumptions=['OpenSSL 3 EVP and nettle are correct references (self-checked against published vectors at start-up; failure is a harness error)',
+                 'after get_digest with a too-small buffer it is unspecified whether the object is closed: no update is issued until the next real read or reset',
+                 'large sub-run uses the gcc -O2 build without sanitizers for speed; all other sub-runs ASan+UBSan'],
+    corpus_harness='hash', design_ref='4/C11'))
+ENGINES[0]['serves_properties'].append('C11')
+LEVEL_TEXT['C11'] = 'Differential testing against independent implementations (OpenSSL, nettle) over generated chunkings aimed at block/padding boundaries and over read/update/reset histories; includes single updates >= 2^32 bytes.'
+LEVEL_NOTE['C11'] = 'Trusted: OpenSSL EVP and nettle gosthash94cp (checked against RFC/standard vectors at start-up).'
+TECHNIQUE['C11'] = 'property-based differential testing (rapidcheck) vs OpenSSL/nettle + exhaustive boundary grid + metamorphic large-update cases'
